@@ -50,12 +50,15 @@ use std::fs;
 use std::io::{self, Read, Seek, SeekFrom, Write};
 use std::mem::size_of;
 use std::path::{Path, PathBuf};
+#[cfg(not(cfb_verif))]
 use std::sync::{Arc, RwLock, RwLockReadGuard, RwLockWriteGuard};
 
 use fnv::FnvHashSet;
 use uuid::Uuid;
 
 use crate::internal::consts;
+#[cfg(cfb_verif)]
+use crate::internal::sync::{Arc, RwLock, RwLockReadGuard, RwLockWriteGuard};
 use crate::internal::DEFAULT_STREAM_MAX_BUFFER_SIZE;
 use crate::internal::{
     Allocator, DirEntry, Directory, EntriesOrder, Header, MiniAllocator,
@@ -65,6 +68,15 @@ pub use crate::internal::{Entries, Entry, Stream, Version};
 
 #[macro_use]
 mod internal;
+
+/// Instrumentation for verification harnesses; only present when the crate is
+/// compiled with `--cfg cfb_verif`.
+#[cfg(cfb_verif)]
+pub mod verif {
+    pub use crate::internal::sync::{
+        current_thread_id, set_lock_tracing, take_lock_events, LockEvent,
+    };
+}
 
 //===========================================================================//
 
